@@ -54,6 +54,9 @@ def dominates(new, old, tol=Fraction(1, 10 ** 9)):
     return m1 > 0 and m2 > 0 and m3 > 0
 
 
+NEAR_SINGULAR_SITE = 'gradation:indefinite-by-rounding-at-extreme-anisotropy'
+
+
 def well_posed(mesh, amax=1e12):
     """SPD vertex tensors of moderate size and conditioning, finite coordinates, no zero-length edge"""
     if not finite_field(mesh.xyz):
@@ -118,7 +121,22 @@ def o_gac(op, mesh, target, line, out, hessian_input=False):
         return
     f = [unhx(t) for t in w[1:]]
     field = [tuple(f[6 * i:6 * i + 6]) for i in range(len(f) // 6)]
-    if not mt.o_spd_field(op, mesh, field, out):
+    tmp = []
+    if not mt.o_spd_field(op, mesh, field, tmp):
+        # KNOWN FINDING gradation:indefinite-by-rounding-at-extreme-anisotropy: with the aspect-ratio limiter at its hidden cap
+        # (1e12 between the eigenvalues) a vertex tensor is positive definite only up to a relative 1e-12, and the log/exp/
+        # intersect arithmetic of the gradation sweeps (about 1e-16 x conditioning) can leave its smallest eigenvalue slightly
+        # NEGATIVE.  Tagged only when that is the whole failure: every tensor finite, the most negative eigenvalue no larger
+        # than 1e-6 of the largest in magnitude; a grossly indefinite or non-finite tensor stays an ordinary failure.
+        tiny = all(math.isfinite(x) for m in field for x in m)
+        if tiny:
+            for m in field:
+                if not is_spd_exact(m):
+                    ev = mt.sm_eigs(m)
+                    if not (ev[2] > 0 and ev[0] >= -1e-6 * ev[2]):
+                        tiny = False
+        for msg in tmp:
+            out.append((msg, NEAR_SINGULAR_SITE) if (tiny and hessian_input and 'not positive definite' in msg) else msg)
         return
     c, mag = complexity_ref(mesh, field)
     if not (mag < 1.5 * abs(c)):
@@ -177,7 +195,7 @@ def oracle(ops, impl):
                     o_gac(op, mesh, unhx(w[4]), 'ok ' + ' '.join(rw[6:6 + 6 * ns]), out, hessian_input=True)
         except (ValueError, IndexError, AssertionError, KeyError, ZeroDivisionError):
             continue
-        bad.extend((i, m) for m in out)
+        bad.extend(((i, m[0], m[1]) if isinstance(m, tuple) else (i, m)) for m in out)
     return bad
 
 
